@@ -342,3 +342,39 @@ def run(ck):
                         par = H.parents(guf).get(id(par))
                     ok = par is guf['body']
         ck.ob('R14.7', 'header-block-unconditional', ok, F.bin.loc(hw[0]) if hw else '', '`if let Some(ui_support) = ..` is a top-level statement of generate_ui_file')
+
+    # ---- R14.8 Reject: every selected binding and every callback is an error, on every path ----------------------------------------------
+    ck.rule('R14.8', 'in Reject mode every binding Generate mode would translate is an error, on every path; Generate skips no object')
+    import nonediag
+    bfn = L.fn('uigen::build')
+    if bfn is None:
+        ck.floor('R14.8', 0, 1, 'fn uigen::build')
+    else:
+        rej = None
+        for m in (n for n in walk(bfn['body']) if n.get('k') == 'Match'):
+            for a in m['arms']:
+                if 'DynamicBindingHandling::Reject' in pp(a['pat']):
+                    rej = a
+        loops = [n for n in walk(rej['body']) if n.get('k') == 'For'] if rej else []
+        ck.floor('R14.8', len(loops), 2, 'loops of the Reject arm (properties, callbacks)')
+
+        def ev(n):
+            if n.get('k') == 'MCall' and n.get('m') == 'push' and n.get('args') and 'Diagnostics' in (L.ty(n['recv'], adjusted=True) or L.ty(n['recv']) or ''):
+                return 'warning' if nonediag.is_warning_push(n) else 'error'
+            if n.get('k') == 'MCall' and n.get('m') in ('evaluate', 'evaluate_uncached'):
+                return 'evaluates'
+            return None
+        for i, lp in enumerate(loops):
+            ps = H.paths(lp['body'], ev)
+            silent = [(c, e) for c, e, x in ps if 'error' not in e]
+            what = 'callbacks' if 'callbacks' in pp(lp['iter'], maxlen=200) else 'properties'
+            ck.ob('R14.8', 'reject-loop-rejects-on-every-path|%s' % what, bool(ps) and not silent, L.loc(lp),
+                  'each of the %d paths through the loop body pushes an error' % len(ps) if not silent else
+                  'on the path [%s] a selected binding is accepted without a diagnostic in Reject mode although Generate mode translates it' % H.describe_ctx(silent[0][0]), fn=bfn['path'])
+            evs = [e for c, e, x in ps if 'evaluates' in e]
+            ck.ob('R14.8', 'reject-loop-does-not-reevaluate|%s' % what, not evs, L.loc(lp),
+                  'the Reject arm uses the cached classification only' if not evs else 'the Reject arm evaluates bindings itself: its notion of "constant" differs from the one Generate mode uses (the cached state left by the form pass)', fn=bfn['path'])
+    import core as _core
+    import rules.c04 as c04
+    sh = _core.Shared(ck, 'R14.8', lambda r, k: r == 'R4.1d' and k == 'support-pass-visits-every-object', 'C04:', ' [an object skipped by Generate is still rejected by Reject: the two modes disagree]')
+    c04.run(sh)
